@@ -4,8 +4,8 @@
      BACKSLASH BACKQUOTE) (str.replace with a one-character pattern is a per-character
      substitution);
    - py_dq_decode: Python's decoding of the body of a double-quoted string literal,
-     restricted to raw characters and the three escapes backslash-backslash,
-     backslash-dquote, backslash-n.  None = outside that domain (another escape such as
+     restricted to raw characters and the four escapes backslash-backslash,
+     backslash-dquote, backslash-n, backslash-r.  None = outside that domain (another escape such as
      backslash-a, backslash-x41, backslash-backquote; a raw double quote; a raw newline /
      carriage return / NUL; a surrogate; a trailing lone backslash);
    - pushed_string: the string appended by the statement stack.append(DQUOTE body DQUOTE);
@@ -50,6 +50,7 @@ Fixpoint py_dq_decode (s : str) : option str :=
             if N.eqb e 92 then opt_cons 92 (py_dq_decode r')
             else if N.eqb e 34 then opt_cons 34 (py_dq_decode r')
             else if N.eqb e 110 then opt_cons 10 (py_dq_decode r')
+            else if N.eqb e 114 then opt_cons 13 (py_dq_decode r')
             else None
         end
       else if py_raw_char c then opt_cons c (py_dq_decode r)
@@ -64,10 +65,10 @@ Definition pushed_string (text : str) : option str :=
   end.
 
 (* the characters of the original string for which the round trip is claimed: everything a
-   Python source text can hold raw, plus the four the pipeline escapes (backslash,
-   back-quote, double quote, newline) *)
+   Python source text can hold raw, plus the five the pipeline escapes (backslash,
+   back-quote, double quote, newline, carriage return) *)
 Definition quotable_char (c : N) : bool :=
-  negb (N.eqb c 0) && negb (N.eqb c 13) && negb ((55296 <=? c) && (c <=? 57343)) && (c <=? 1114111).
+  negb (N.eqb c 0) && negb ((55296 <=? c) && (c <=? 57343)) && (c <=? 1114111).
 
 Definition printable_ascii (c : N) : bool := (32 <=? c) && (c <=? 126).
 
